@@ -59,7 +59,7 @@ static int bad_bytes(const char *p, int n)
     }
     return 0;
 }
-static int ent_is_string(const sanent_t *e) { return e->kind != K_IP; }
+static int ent_is_string(const sanent_t *e) { return e->kind != K_IP && e->kind != K_OTHER; }
 /* string entry = printable text + exactly one trailing NUL */
 static int ent_trailing_nul(const sanent_t *e)
 {
@@ -67,6 +67,7 @@ static int ent_trailing_nul(const sanent_t *e)
 }
 static int ent_malformed(const sanent_t *e)
 {
+    if (e->kind == K_OTHER) return 0;   /* opaque: never a name, never malformed as far as the matcher is concerned */
     if (e->kind == K_IP) return e->len != 4 && e->len != 16;
     if (e->len == 0) return 1;
     if (ent_trailing_nul(e)) return 0;
@@ -194,7 +195,7 @@ static int cn_eligibility(const names_t *N, int type, unsigned mflags)
     for (i = 0; i < N->n; i++)
     {
         int k = POOL[N->idx[i]].kind;
-        if (k == K_URI) has_uri = 1; else supported = 1;
+        if (k == K_URI || k == K_OTHER) has_uri = 1; else supported = 1;
         if (k == K_DNS) has_dns = 1;
     }
     if (!supported) return has_uri ? 2 : 1;                           /* don't-care 4 */
@@ -241,6 +242,8 @@ static int refusal_justified(const names_t *N)
     for (i = 0; i < N->n; i++)
     {
         if (ent_malformed(&POOL[N->idx[i]]) || ent_trailing_nul(&POOL[N->idx[i]])) return 1;
+        /* an otherName whose value uses a high-tag-number identifier is valid DER that a small parser may refuse */
+        if (POOL[N->idx[i]].kind == K_OTHER && POOL[N->idx[i]].len > 14 && (unsigned char) POOL[N->idx[i]].b[13] == 0x5f) return 1;
     }
     return cn_malformed(&CNS[N->cn]);
 }
